@@ -21,8 +21,8 @@ INFO = {
     'functions': ['pl.schedule.organize', 'pl.schedule.next_job_batch', 'pl.schedule.complete', 'pl.schedule.update', 'pl.schedule.purge',
                   'pl.schedule.find', 'pl.farm.dispatch', 'pl.farm._put', 'pl.farm.Hand._res', 'pl.farm.rerunid', 'pl.dag.Construct (graph construction)'],
     'bounds': {
-        'quick': 'shapes G2..G9, G11 (chains of 2-4, fork, join, diamond, analysis up/down-stream, regression); targets T1 + all-targets marker; histories of <=4 events (<=5 on G4, G8)',
-        'thorough': 'shapes G2..G11; histories of <=5 events',
+        'quick': 'shapes G2..G9, G11 (chains of 2-4, fork, join, diamond, analysis up/down-stream, regression); targets T1 + all-targets marker; histories of <=4 events (<=5 on G4, G8); directed family: a dependent is executing when its ancestor is requested again and dispatched, then 2 free events',
+        'thorough': 'shapes G2..G11; histories of <=5 events; directed family with 3 free events',
     },
     'assumptions': [
         'algorithm engine = in-memory classes registered through the real dawgie.base.Factories (SynthAE)',
